@@ -13,7 +13,7 @@ from symfl.core import S, set_mode, sym_array, tf, same, ZB, elements, SymBool, 
 from symfl.install import install
 from symfl.replay import lit, replay_fn
 
-from .common import rvar
+from .common import wf, rvar
 
 PROPERTY = "C17"
 EXPLANATION = ("Formulas are printed from generated expression trees (all ordered pairs of the 9 binary operators in both tree shapes, unary "
@@ -158,7 +158,7 @@ def variables_of(t, acc=None):
     return acc
 
 
-def ob_formula(tree, label, arrays=False, engine_vars=False, reuse=False, attach=False):
+def ob_formula(tree, label, arrays=False, engine_vars=False, reuse=False, attach=False, special=False):
     """attach: the Function is built with its own variables and no engine, becomes a term of an engine through the Engine constructor
     (which updates the term's engine reference), is evaluated, then moved to a second engine and evaluated again: the term's own
     variables, the engine's variables and x all resolve each time"""
@@ -169,8 +169,8 @@ def ob_formula(tree, label, arrays=False, engine_vars=False, reuse=False, attach
         set_mode("R")
         names = variables_of(tree)
         n = 2 if arrays else 1
-        vals = {v: [rvar(f"{v}{i}") for i in range(n)] for v in names}
-        pre = []
+        vals = {v: [rvar(f"{v}{i}", special=special) for i in range(n)] for v in names}
+        pre = list(wf(*[x for xs in vals.values() for x in xs])) if special else []      # special: NaN and the infinities are values too
         ins = {f"{v}{i}": vals[v][i] for v in names for i in range(n)}
         env = {v: (sym_array(vals[v]) if arrays else vals[v][0]) for v in names}
         texts = []
@@ -345,6 +345,9 @@ def families(tier, seed):
     # variable resolution: engine input X, output O, own variable a, and x
     out.append(("variables/engine", ("bin", "+", ("bin", "*", V("X"), L(2)), ("bin", "-", ("bin", "/", V("O"), V("a")), V("x"))), {"engine_vars": True}))
     out.append(("variables/attached-through-engine-constructor", ("bin", "-", ("bin", "+", V("X"), ("bin", "*", V("a"), ("bin", "^", V("x"), L(2)))), ("bin", "/", ("call", "max", [V("b"), V("O")]), L(4))), {"attach": True}))
+    # NaN / infinite operands of the two-argument functions that are documented through NumPy's propagating versions
+    out.append(("functions/max-min/special-values", ("bin", "-", ("call", "max", [V("a"), V("b")]), ("call", "min", [V("b"), V("c")])), {"special": True}))
+    out.append(("functions/max-min/special-values-arrays", ("bin", "+", ("call", "max", [V("a"), L(0.5)]), ("call", "min", [V("a"), V("b")])), {"special": True, "arrays": True}))
     out.append(("variables/engine-arrays", ("bin", "-", ("bin", "*", V("X"), V("x")), V("a")), {"engine_vars": True, "arrays": True}))
     # arrays for operators
     for o in BIN_OPS:
